@@ -36,6 +36,12 @@ def idx(a, i): return {"k": "idx", "a": a, "i": i}
 def deref(e): return {"k": "deref", "e": e}
 def mem(e, f): return {"k": "mem", "e": e, "f": f}
 def addr(l): return {"k": "addr", "l": l}
+def clit(t, init): return {"k": "clit", "t": t, "init": init}
+def s_static(n, t, init, uid, thread=False):
+    d = {"k": "static", "n": n, "u": uid, "t": t, "thread": thread}
+    if init is not None:
+        d["init"] = init
+    return d
 def sizeof_(l): return {"k": "sizeof", "l": l}
 def s_vla(n, t, length): return {"k": "vla", "n": n, "t": t, "len": length}
 def incdec(l, dec=False, post=False): return {"k": "incdec", "l": l, "dec": dec, "post": post}
@@ -145,6 +151,8 @@ def rexpr(e, structs):
         return "(&%s)" % r(e["l"])
     if k == "sizeof":
         return "sizeof(%s)" % r(e["l"])
+    if k == "clit":
+        return "((%s)%s)" % (ctype(e["t"], structs), rinit(e["init"] if "list" in e["init"] else {"list": [e["init"]]}, structs))
     if k == "incdec":
         op = "--" if e["dec"] else "++"
         return "(%s%s)" % (r(e["l"]), op) if e["post"] else "(%s%s)" % (op, r(e["l"]))
@@ -171,6 +179,11 @@ def rstmt(s, structs, ind=1):
         return t + "obs(%s);\n" % r(s["e"])
     if k == "decl":
         d = ctype(s["t"], structs, s["n"])
+        if "init" in s:
+            d += " = " + rinit(s["init"], structs)
+        return t + d + ";\n"
+    if k == "static":
+        d = ("static _Thread_local " if s.get("thread") else "static ") + ctype(s["t"], structs, s["n"])
         if "init" in s:
             d += " = " + rinit(s["init"], structs)
         return t + d + ";\n"
